@@ -149,11 +149,6 @@ def w_argmax_ties(rec):
     _constfn(rec, "argmax", [a], {}, index_result=True)
 
 
-finding(id="KF-C11-argmax-ties", property="C11", status="open",
-        what="argmax/argmin on ties do not return the first occurrence (argmax([3,1,3,2]) is 2, numpy gives 0): sortable_proxy must be a permutation (C19), so equal elements get distinct ranks and the extreme rank is not the first occurrence; serving both needs a tie-aware selection, not a one-line patch",
-        match={"act": "constfn", "clauses": ["value"], "when": "fn in ('argmax', 'argmin') and arg_ties[0]"},
-        witness=witness(w_argmax_ties))
-
 # --------------------------------------------------------------------- fixed
 FIXED = [
     ("C01", "8ccbe55", "power with an array exponent: transposed / wrongly broadcast result for 3-d operands and for base and exponent of different ndim"),
@@ -186,6 +181,7 @@ FIXED = [
     ("C10", "22affad", "det of matrices of order >= 4 was wrong (cyclic column order without the cofactor sign; a 4x4 integer matrix with determinant 28 gave 0); reported as a side remark by two seeding sub-agents, then reproduced by the 4x4 vectors added to MC_LinAlg (37 rejections)"),
     ("C10", "05be182", "numpy.add.reduce(a) / numpy.add.accumulate(a) without an axis returned the total / the flattened running sum instead of working along the first axis as numpy does (reported as a side remark by a seeding sub-agent, reproduced once the driver omitted the axis: 34 rejections)"),
     ("C20", "d65d9cb", "exponents no polynomial can carry were accepted and stored as other monomials: polynomial_from_attributes([[2**32 + 5]], [4]) was 4*q0**5, -1 became q0**4294967295, 2**63 the constant 4 (mentioned in passing by a seeding sub-agent; 180 rejections once the key driver generated such exponents)"),
+    ("C11", "bec7bbe", "argmax / argmin did not return the first occurrence on ties (argmax([3, 1, 3, 2]) was 2, numpy gives 0); first recorded as known finding KF-C11-argmax-ties, then repaired with a tie-aware rank inside argmax / argmin (sortable_proxy stays a permutation)"),
     ("C03", "64ca5a4", "monomial over an empty index range in D > 1 dimensions returned an object whose storage key width (1) did not match its D names"),
 ]
 
